@@ -55,6 +55,10 @@ def canonicalize_url(
         fragment = None
 
     # Path normalization
+    # NOTE: unreserved characters are unescaped first, so that an escaped
+    # dot segment (%2E%2E) is resolved now and not on the next application
+    path = safely_unquote_path(path)
+
     if path and path != "/":
         trailing_slash = path.endswith(("/", "/.", "/.."))
         path = normpath(path)
@@ -71,37 +75,34 @@ def canonicalize_url(
             path = "/"
 
     # Quotes
+    # NOTE: the quoted form is the quoting of the unquoted canonical form
     if user:
+        user = safely_unquote_auth_item(user)
+
         if quoted:
             user = safely_quote(user)
-        else:
-            user = safely_unquote_auth_item(user)
 
     if password:
+        password = safely_unquote_auth_item(password)
+
         if quoted:
             password = safely_quote(password)
-        else:
-            password = safely_unquote_auth_item(password)
 
     if quoted:
         path = safely_quote(path)
-    else:
-        path = safely_unquote_path(path)
 
-    qsl = safe_qsl_iter(query)
+    qsl = safely_unquote_qsl(safe_qsl_iter(query))
 
     if quoted:
         qsl = safely_quote_qsl(qsl)
-    else:
-        qsl = safely_unquote_qsl(qsl)
 
     query = safe_serialize_qsl(qsl)
 
     if fragment:
+        fragment = safely_unquote_fragment(fragment)
+
         if quoted:
             fragment = safely_quote(fragment)
-        else:
-            fragment = safely_unquote_fragment(fragment)
 
     # Repacking
     netloc = unsplit_netloc(user, password, hostname, port)
